@@ -86,7 +86,7 @@ fn plan(prop: &str) -> Vec<(Sim, usize, usize)> {
         "C01" => vec![(AStore, 6000, 400_000), (BDec, 12_000, 600_000), (ACorner, 12, 400), (BOneshot, 3000, 100_000)],
         "C02" => vec![(BEnc, 16_000, 800_000), (AStore, 4000, 300_000), (BDec, 3000, 100_000), (ACorner, 8, 300)],
         "C03" => vec![(AStore, 6000, 400_000), (BEnc, 8000, 400_000), (BDec, 8000, 400_000), (ACorner, 24, 600)],
-        "C04" => vec![(Jumbo, 1, 4), (BEnc, 14_000, 700_000), (BDec, 10_000, 500_000), (AStore, 3000, 200_000)],
+        "C04" => vec![(Jumbo, 0, 4), (BEnc, 14_000, 700_000), (BDec, 10_000, 500_000), (AStore, 3000, 200_000)],
         "C05" => vec![(BEnc, 14_000, 800_000), (BDec, 12_000, 700_000), (AStore, 3000, 200_000)],
         "C06" => vec![(BEnc, 12_000, 600_000), (BDec, 12_000, 600_000), (BOneshot, 10_000, 500_000), (AStore, 3000, 200_000), (ACorner, 24, 600)],
         "C07" => vec![(BEnc, 14_000, 700_000), (BDec, 14_000, 700_000), (AStore, 3000, 200_000)],
@@ -825,6 +825,16 @@ fn cmd_check_outer(args: &Args) -> i32 {
         return code;
     }
     // killed by a signal
+    #[cfg(unix)]
+    {
+        // SIGKILL / SIGTERM / SIGINT / SIGHUP come from outside (out-of-memory killer, a supervisor's time limit, the
+        // user), never from the code under test: a harness error, not a verdict
+        let sig = std::os::unix::process::ExitStatusExt::signal(&status);
+        if matches!(sig, Some(9 | 15 | 2 | 1)) {
+            eprintln!("harness error: the batch process was killed from outside ({status}): out of memory, or stopped by a supervisor");
+            return 2;
+        }
+    }
     let prop = args.get("property").unwrap_or("").to_string();
     let tier = args.get("tier").unwrap_or("quick").to_string();
     let master: u64 = args.get("seed").map(str::to_string).or_else(|| std::env::var("VERIF_SEED").ok()).and_then(|s| s.parse().ok()).unwrap_or(1);
